@@ -53,6 +53,7 @@ def trace_oracle(summary):
 
 
 EXTRA_TARGETS = ["wvsearch"]
+evidence_extra = mc.cert_stats
 
 
 def run_case(case):
